@@ -79,6 +79,10 @@ type Sched struct {
 	notify chan struct{}
 	// pointFn receives VerifPoint callbacks.
 	pointFn func(node, site string, owner interface{})
+	// YieldFn observes every yield point that is passed (parking or not); it
+	// runs on the goroutine of the system under test, outside critical
+	// sections.
+	YieldFn func(node, site string, owner interface{})
 
 	// AutoOn enables the "auto." sites of the rewritten repository copy (A
 	// flavour); LocksFree tells whether every mutex of a node is free.
@@ -155,6 +159,11 @@ func (s *Sched) yield(owner interface{}, site string) {
 	s.mu.Lock()
 	node := s.nodeOf(owner)
 	s.SiteHits[site]++
+	if fn := s.YieldFn; fn != nil {
+		s.mu.Unlock()
+		fn(node, site, owner)
+		s.mu.Lock()
+	}
 	if strings.HasPrefix(site, "auto.") {
 		// Inserted in front of a lock acquisition in the rewritten copy of the
 		// repository (A flavour). Never park inside a critical section: a
